@@ -302,7 +302,7 @@ def run(rep):
     rep.clause("R-C02-length", "the filter length handed to every kernel constructor is ≥ the requested sinc_len (rounding to the SIMD granularity goes up)")
     rep.floor("R-C02-window-table", 1 + 6 + 6 + 2)
     rep.floor("R-C01-grid", 6)
-    rep.floor("R-C15-dispatch", 20)
+    rep.floor("R-C15-dispatch", 24)
     rep.floor("R-C15-lanes", 61)
     rep.clause("R-C02-cutoff-upper", "the cutoff handed to every kernel constructor is at most f_cutoff when ratio ≥ 1 and at most f_cutoff·ratio when down-sampling (removing the ratio scaling → aliasing)")
     rep.clause("R-C02-fft", "FFT unit: cutoff = calculate_cutoff(min(in,out))·min(1,out/in); spectrum truncated to min(in+1,out) bins and zero-filled")
